@@ -1,4 +1,5 @@
 import TsVerif.C06.NodePort
+import TsVerif.C06.Cursor
 /-!
 # C06 — ports of the position-based searches of node.c
 
@@ -361,5 +362,37 @@ def childByFieldIdPort (lang : Lang) (fuel : Nat) (self : NodeRef) (fieldId : Na
         else if child.childCount > 0 then nodeChild lang true child.t child.start 0
         else scan rest ms
     scan (rawChildren lang self) fm
+
+mutual
+  /-- The visible children of a node together with the field chain `flattenKids` records for each
+  (own structural slot first, then the slots of the hidden ancestors passed on the way down;
+  an extra child has none and cuts the chain). -/
+  def enumF (lang : Lang) : Tree → List (List Nat) → List (Tree × Nat × List (List Nat))
+    | .mk d kids, outer => enumKidsF lang d.productionId kids 0 outer
+  def enumKidsF (lang : Lang) (pid : Nat) : List Tree → Nat → List (List Nat) → List (Tree × Nat × List (List Nat))
+    | [], _, _ => []
+    | c :: rest, si, outer =>
+      let al := if c.data.extra then 0 else lang.aliasAt pid si
+      let si' := if c.data.extra then si else si + 1
+      let chain := if c.data.extra then [] else directFields lang pid si :: outer
+      (if c.data.visible || al != 0 then [(c, al, chain)] else enumF lang c chain) ++ enumKidsF lang pid rest si' outer
+end
+
+
+mutual
+  /-- Hypothesis of `field_name_for_child_spec`: a hidden EXTRA node has no visible children (the C
+  code would index the field map with the structural index of the previous sibling when descending
+  into one).  Evaluated on every real tree. -/
+  def hiddenExtraOK (lang : Lang) : Tree → Nat → Bool
+    | .mk d kids, al =>
+      (if d.extra && !(d.visible || al != 0) then decide (vcc (.mk d kids) = 0) else true) &&
+        hiddenExtraOKKids lang kids d.productionId 0
+  def hiddenExtraOKKids (lang : Lang) : List Tree → Nat → Nat → Bool
+    | [], _, _ => true
+    | c :: rest, pid, si =>
+      hiddenExtraOK lang c (if c.data.extra then 0 else lang.aliasAt pid si) &&
+        hiddenExtraOKKids lang rest pid (if c.data.extra then si else si + 1)
+end
+
 
 end TsVerif.C06
